@@ -85,4 +85,18 @@ theorem no_collapse_false : ¬ NoCollapse := by
   have hw2 : allHex w₂ := allHex_of_all _ (by decide)
   exact h w₁ w₂ hw1 hw2 (by decide) (by decide) witnesses_accepted.2.2 (token_identity_collapse w₁ w₂ hw1 hw2 (by decide +kernel))
 
+
+/-! ### the feeder asks the external chain about the recorded token -/
+
+/-- **the owner lookup carries the token id unchanged**: the `eth_call` data is the `ownerOf` selector followed by a 32-byte word whose
+value is the 256-bit value of the token id string it was given - the same value `tokenValue` the chain itself uses when it asks its
+own EVM (so for a recorded id - 40 digits, below 2^160 - it is the recorded NFT, and no other, that is looked up) -/
+theorem feeder_lookup_is_the_given_token (contract tok : Str) :
+    ∃ bs, (ownerOfCall contract tok).2 = "0x6352211e".toList ++ bytesHex bs ∧ bs.length = 32 ∧ bytesVal bs = tokenValue tok :=
+  ⟨fixBytes 32 (fromHex tok), rfl, fixBytes_length 32 _, rfl⟩
+
+/-- non-vacuity: token 0xa is looked up as ...0a (not as decimal 10 read as hex) -/
+example : (ownerOfCall "0x00000000000000000000000000000000000000c1".toList "0xa".toList).2 =
+    "0x6352211e000000000000000000000000000000000000000000000000000000000000000a".toList := by decide
+
 end Settlus.C19
